@@ -55,6 +55,54 @@ pub fn completion_bytes(seed: u32, n: usize) -> Vec<u8> {
     crate::gen::tlv_run(seed, n)
 }
 
+/// The numbers a message states: maximal runs of decimal digits, and `0x`-prefixed hexadecimal numbers.
+fn stated_numbers(msg: &str) -> Vec<u128> {
+    let b = msg.as_bytes();
+    let mut out = Vec::new();
+    let mut i = 0;
+    while i < b.len() {
+        if b[i] == b'0' && i + 2 < b.len() && (b[i + 1] == b'x' || b[i + 1] == b'X') && b[i + 2].is_ascii_hexdigit() {
+            let mut j = i + 2;
+            while j < b.len() && b[j].is_ascii_hexdigit() {
+                j += 1;
+            }
+            out.push(u128::from_str_radix(&msg[i + 2..j], 16).unwrap_or(u128::MAX));
+            i = j;
+        } else if b[i].is_ascii_digit() {
+            let mut j = i;
+            while j < b.len() && b[j].is_ascii_digit() {
+                j += 1;
+            }
+            // a digit run glued to letters (`1C`, `a3`) is not a decimal number
+            let glued = (i > 0 && b[i - 1].is_ascii_alphabetic()) || (j < b.len() && b[j].is_ascii_alphabetic());
+            out.push(if glued { u128::MAX } else { msg[i..j].parse().unwrap_or(u128::MAX) });
+            i = j;
+        } else {
+            i += 1;
+        }
+    }
+    out
+}
+
+/// The error's own text is how the counts reach a log or an operator: if it states numbers at all, the exact counts are
+/// among them (a message without numbers is fine; so is any wording).
+fn message_states(e: &E2, counts: &[usize], x: &[u8]) -> Verdict {
+    let msg = match crate::engine::guard(|| e.to_string()) {
+        Ok(m) => m,
+        Err(_) => return Ok(()),
+    };
+    let nums = stated_numbers(&msg);
+    if nums.is_empty() {
+        return Ok(());
+    }
+    for c in counts {
+        if !nums.contains(&(*c as u128)) {
+            return Err(Fail::new("message-states-other-numbers", shape2(x), "Display for v2::ParseError", format!("a text that states {:?}", counts), format!("{:?}", msg)));
+        }
+    }
+    Ok(())
+}
+
 /// Check one input against the statement; `deep` also runs the completion metamorphic steps.
 pub fn judge_with(c: &Case, st: &mut Stats, deep: bool) -> Verdict {
     judge_with_at(c, &c.input, st, deep)
@@ -106,7 +154,7 @@ pub fn judge_with_at(c: &Case, x: &Vec<u8>, st: &mut Stats, deep: bool) -> Verdi
                     format!("Incomplete({}) for {} bytes", n, x.len()),
                 ));
             }
-            Ok(())
+            message_states(r.as_ref().err().unwrap(), &[*n], x)
         }
         Err(E2::Partial(have, need)) => {
             st.nontrivial(c.digest());
@@ -122,6 +170,7 @@ pub fn judge_with_at(c: &Case, x: &Vec<u8>, st: &mut Stats, deep: bool) -> Verdi
                     format!("Partial({}, {}) for {} bytes present", have, need, x.len()),
                 ));
             }
+            message_states(r.as_ref().err().unwrap(), &[*have, *need], x)?;
             if !deep {
                 return Ok(());
             }
